@@ -572,6 +572,11 @@ def check_fold(fx, R):
     e = fx.enums.get(Q + 'DiagnosticStatus')
     vals = {c['name']: c['v'] for c in e['consts']}
     top = max(vals.values())
+    # ---- by value (E-STEP): both folds are run on every status list of 1..4 entries and on longer ones with a single non-OK entry at each position;
+    #      worseStatus must return the largest status, allOK must say whether every entry is OK.  A form the evaluator cannot run falls back to the form rules below.
+    by_value = fold_by_value(fx, R, f, g, vals)
+    if by_value == (True, True):
+        return
     decls = [(v['name'], deep_unwrap(sx(v['init']))) for s_ in walk(f['body']) if s_.get('k') == 'Decl' for v in s_['vars'] if v.get('init') is not None]
     loops = [s_ for s_ in walk(f['body']) if s_.get('k') in ('While', 'For', 'RangeFor', 'Do')]
     rets = [deep_unwrap(sx(s_['e'])) for s_ in walk(f['body']) if s_.get('k') == 'Return']
@@ -638,6 +643,52 @@ def check_fold(fx, R):
     gr = [deep_unwrap(sx(s_['e'])) for s_ in walk(g['body']) if s_.get('k') == 'Return']
     okg = len(gr) == 1 and gr[0] in (('==', ('worseStatus', 'diagnostics'), 'romea::core::DiagnosticStatus::OK'), ('==', 'romea::core::DiagnosticStatus::OK', ('worseStatus', 'diagnostics')))
     R.form(okg, 'T4', 'allOK', 'allOK is %s, expected worseStatus(diagnostics) == OK' % (gr,), 'allOK = (worst == OK)', fx.rel(g['loc']), 'E-STATE')
+
+
+def fold_by_value(fx, R, f, g, vals):
+    import itertools
+    from .. import mini
+    names = {v: k for k, v in vals.items()}
+    ok_v = vals.get('OK', min(vals.values()))
+    lists = [list(c) for n_ in (1, 2, 3, 4) for c in itertools.product(sorted(vals.values()), repeat=n_)]
+    for n_ in (7, 20):
+        for pos in range(n_):
+            for bad in sorted(set(vals.values()) - {ok_v}):
+                lists.append([ok_v] * pos + [bad] + [ok_v] * (n_ - pos - 1))
+    decided = []
+    for (h, inst, oracle, what) in ((f, 'worseStatus', lambda l: max(l), 'the largest status of the list'), (g, 'allOK', lambda l: all(x == ok_v for x in l), 'whether every entry is OK')):
+        bad = why = None
+        n_ok = 0
+        pn = h['params'][0]['name'] if h.get('params') else 'diagnostics'
+        for l in lists:
+            stp = mini.list_hooks(mini.Step(deep_unwrap))
+            prev, inl = stp.fallback, mini.inliner(fx, stp)
+            stp.fallback = lambda t, env, prev=prev, inl=inl: (lambda r: r if r is not NotImplemented else inl(t, env))(prev(t, env))
+            env = {pn: [{'status': v} for v in l]}
+            env.update({Q + 'DiagnosticStatus::' + k: v for k, v in vals.items()})
+            try:
+                got = stp.call(h['body'], env)
+            except (mini.Unsupported, TypeError, ValueError, KeyError, RecursionError) as u:
+                why = str(u)[:160]
+                break
+            if got is None or isinstance(got, (list, dict)):
+                why = 'no value returned'
+                break
+            want = oracle(l)
+            if (bool(got) != want) if inst == 'allOK' else (got != want):
+                bad = bad or (l, got, want)
+            n_ok += 1
+        if why:
+            decided.append(False)
+            continue
+        decided.append(True)
+        show = lambda l: '[%s]' % ', '.join(names.get(x, str(x)) for x in l)
+        if bad:
+            R.violated('T4', inst + ':value', '%s(%s) returns %s; %s is %s.  (Evaluated on every status list of 1..4 entries and on lists of 7 and 20 entries with one non-OK entry at each position.)' % (
+                inst, show(bad[0]), names.get(bad[1], bad[1]) if inst == 'worseStatus' else bool(bad[1]), what, names.get(bad[2], bad[2]) if inst == 'worseStatus' else bad[2]), fx.rel(h['loc']), 'E-STEP')
+        else:
+            R.holds('T4', inst + ':value', 'returns %s on all %d status lists (every list of 1..4 entries, single non-OK entries at every position of 7- and 20-entry lists)' % (what, n_ok), fx.rel(h['loc']), 'E-STEP')
+    return tuple(decided)
 
 
 def eval_pred(p, acc, v, vals):
